@@ -1,5 +1,6 @@
 import EchoModel.RouterWire
 import EchoModel.RouterSpec
+import EchoModel.RouterInv
 /-!
 # C01 — what a dispatched handler sees (router.go Find + context.go ParamValues)
 
@@ -22,7 +23,11 @@ def runLine (line : String) : String :=
   match parseLine (do let t ← pTable; let m ← str; let p ← str; let n ← nat; pure (t, m, p, n)) line with
   | none => "bad-op"
   | some (t, m, p, n) =>
+    -- translation validation of `Router.build` for this table: the tree satisfies the invariant of
+    -- the refinement theorem (TI) and represents exactly the registered entries (RS)
+    let inv := Tree.tableInvariant t
     render (encOutcome (find (build t) m p (List.replicate (max n (maxParam t)) []))
-      ++ ["//"] ++ encSpec (Spec.routeTable t m p))
+      ++ ["//"] ++ encSpec (Spec.routeTable t m p)
+      ++ ["//", if inv.1 then "TI1" else "TI0", if inv.2 then "RS1" else "RS0"])
 
 end C01
